@@ -121,22 +121,57 @@ RouteAll == {x \in RouteCfgs \X RouteReqs : RouteOK(x[1], x[2])}
 ViaCfgs == [tf : {"off"}, auth : {FALSE}, lh : {"allow"}, deny : {FALSE}, dd : {FALSE}, up : {NoUp, [t |-> "static", v |-> "HTTP_A"]}, ct : {"none"}]
 ViaReqs == [kind : {"GET", "GET10", "POST", "CONNECT", "MITMGET"}, host : {"origin"}, cred : {"none"}, via : ViaClasses, pos : {"first", "afterOK"}]
 
+(* ---------- credentials (C06) ---------- *)
+\* --credentials table: which kinds of entries exist (each with its own user); "proxy" = an exact entry
+\* for the upstream proxy's own host:port. Site entries are written for the target origin.test / port 80.
+SiteEntries == {"exact", "port", "host", "glob"}
+\* credentials.go Match: exact host:port, then *:port, then host:*, then *:*
+Match(T, isOriginHost, isPort80) ==
+  IF "exact" \in T /\ isOriginHost /\ isPort80 THEN "exact"
+  ELSE IF "port" \in T /\ isPort80 THEN "port"
+  ELSE IF "host" \in T /\ isOriginHost THEN "host"
+  ELSE IF "glob" \in T THEN "glob" ELSE "none"
+\* the upstream proxy's address is neither the site host nor port 80
+MatchProxy(T) == IF "proxy" \in T THEN "proxy" ELSE IF "glob" \in T THEN "glob" ELSE "none"
+CredUps == {"none", "staticUserinfo", "staticTable", "pacTable"}
+CredCfgs == [table : SUBSET (SiteEntries \cup {"proxy"}), up : CredUps]
+ClientShapes == {"none", "ownAuthz", "pauthOnce", "pauthTwice", "pauthMixedCase", "pauthNominated", "pauthAndAuthz"}
+CredReqs == [kind : {"GET", "CONNECT", "MITMGET"}, host : {"origin", "other"}, port : {"implicit", "8080"}, shape : ClientShapes]
+CredReqOK(r) == (r.kind = "CONNECT" => r.port = "8080") /\ (r.kind = "MITMGET" => r.port = "implicit")
+HasOwnAuthz(sh) == sh \in {"ownAuthz", "pauthAndAuthz"}
+CredExpect(c, r) ==
+  LET p80 == r.kind = "GET" /\ r.port = "implicit"        \* http default port; CONNECT uses 8080, MITM 443
+      site == Match(c.table \ {"proxy"}, r.host = "origin", p80)
+  IN [ \* what the request that reaches the target (or the inner request of a tunnel) may carry as Authorization
+       siteAuth  |-> IF HasOwnAuthz(r.shape) THEN "client" ELSE site,
+       \* what the upstream proxy may be shown as Proxy-Authorization
+       proxyAuth |-> CASE c.up = "none" -> "none" [] c.up = "staticUserinfo" -> "userinfo" [] OTHER -> MatchProxy(c.table),
+       viaProxy  |-> c.up # "none" ]
+CredAll == {x \in CredCfgs \X CredReqs : CredReqOK(x[2])}
+
 VARIABLES gen, cfg, req, out
 vars == <<gen, cfg, req, out>>
 Pick(n, S) == IF n = 0 THEN S ELSE RandomSubset(n, S)
 InitAccess == gen = "access" /\ \E x \in Pick(AccessSample, AccessAll) : cfg = x[1] /\ req = x[2] /\ out = Decide(x[1], x[2])
 InitRoute  == gen = "route"  /\ \E x \in Pick(RouteSample, RouteAll)   : cfg = x[1] /\ req = x[2] /\ out = Decide(x[1], x[2])
 InitVia    == gen = "via"    /\ cfg \in ViaCfgs /\ req \in ViaReqs /\ out = Decide(cfg, req)
-Init == InitAccess \/ InitRoute \/ InitVia
+InitCred   == gen = "cred"   /\ \E x \in Pick(CredSample, CredAll) : cfg = x[1] /\ req = x[2] /\ out = CredExpect(x[1], x[2])
+Init == InitAccess \/ InitRoute \/ InitVia \/ InitCred
 Next == FALSE /\ UNCHANGED vars
 
 \* meta-properties of the decision function itself (checked over the whole space)
-HTTPandCONNECTagree == \A k \in {"GET", "CONNECT", "MITMGET"} : Decide(cfg, [req EXCEPT !.kind = k]) = out
-NoAuthNoForward == (cfg.auth /\ ~CredOK(req.cred) /\ ~CredOpen(req.cred)) => out.o = "reject" /\ out.status \in {407, 451}
-RejectHasNoHop == out.o \in {"reject", "fail"} => out.dial = "none"
-LoopRefused == (ViaLoop(req.via) /\ out.o # "reject") => FALSE
-ChallengeOnlyOn407 == out.challenge <=> (out.o = "reject" /\ out.status = 407)
-PositionIrrelevant == \A p \in {"first", "afterOK", "afterRefused"} : Decide(cfg, [req EXCEPT !.pos = p]) = out
-FirstIsInFailSet == out.o = "reject" => out.status \in FailSet(cfg, req)
-Emit == PrintT(ToJson([gen |-> gen, cfg |-> cfg, req |-> req, out |-> out, alts |-> FailSet(cfg, req)]))
+HTTPandCONNECTagree == gen = "cred" \/ (\A k \in {"GET", "CONNECT", "MITMGET"} : Decide(cfg, [req EXCEPT !.kind = k]) = out)
+NoAuthNoForward == gen = "cred" \/ ((cfg.auth /\ ~CredOK(req.cred) /\ ~CredOpen(req.cred)) => out.o = "reject" /\ out.status \in {407, 451})
+RejectHasNoHop == gen = "cred" \/ (out.o \in {"reject", "fail"} => out.dial = "none")
+LoopRefused == gen = "cred" \/ ((ViaLoop(req.via) /\ out.o # "reject") => FALSE)
+ChallengeOnlyOn407 == gen = "cred" \/ (out.challenge <=> (out.o = "reject" /\ out.status = 407))
+PositionIrrelevant == gen = "cred" \/ (\A p \in {"first", "afterOK", "afterRefused"} : Decide(cfg, [req EXCEPT !.pos = p]) = out)
+FirstIsInFailSet == gen = "cred" \/ (out.o = "reject" => out.status \in FailSet(cfg, req))
+\* C06 meta-properties: the client's own Authorization always wins; a more specific entry wins
+ClientAuthzWins == gen = "cred" /\ HasOwnAuthz(req.shape) => out.siteAuth = "client"
+ExactBeatsAll == gen = "cred" /\ "exact" \in cfg.table /\ req.host = "origin" /\ req.kind = "GET" /\ req.port = "implicit"
+                    /\ ~HasOwnAuthz(req.shape) => out.siteAuth = "exact"
+NoProxyNoProxyAuth == gen = "cred" /\ cfg.up = "none" => out.proxyAuth = "none"
+Emit == IF gen = "cred" THEN PrintT(ToJson([gen |-> gen, cfg |-> cfg, req |-> req, out |-> out]))
+        ELSE PrintT(ToJson([gen |-> gen, cfg |-> cfg, req |-> req, out |-> out, alts |-> FailSet(cfg, req)]))
 ==============================================================================
